@@ -26,6 +26,9 @@ enum Case {
     Headers { suite: String },
     /// another ciphersuite's valid encodings fed to this suite's decoders
     CrossSuite { suite: String, other: String },
+    /// accept/reject of the raw scalar / element decoder vs. the independent Python decoders
+    /// (catches over-rejection as well as over-acceptance)
+    Differential { suite: String, kind: String, full: bool },
 }
 
 fn n_bases(tier: Tier, kind: WKind) -> usize {
@@ -76,6 +79,9 @@ impl Prop for C12 {
                     out.push(serde_json::to_value(Case::CrossSuite { suite: suite.to_string(), other: other.to_string() }).unwrap());
                 }
             }
+            for kind in ["scalar", "element"] {
+                out.push(serde_json::to_value(Case::Differential { suite: suite.to_string(), kind: kind.to_string(), full: tier == Tier::Thorough }).unwrap());
+            }
         }
         // canon cases: enumerate the primitive decoders from a corpus of one suite (names are uniform)
         let names: Vec<(String, WKind, WPath)> = with_suite!("ed25519", prim_names);
@@ -91,7 +97,7 @@ impl Prop for C12 {
     fn run(&self, case: &Value) -> Outcome {
         let c: Case = serde_json::from_value(case.clone()).expect("case");
         let suite = match &c {
-            Case::RoundTrip { suite, .. } | Case::Canon { suite, .. } | Case::Negatives { suite } | Case::Headers { suite } | Case::CrossSuite { suite, .. } => suite.clone(),
+            Case::RoundTrip { suite, .. } | Case::Canon { suite, .. } | Case::Negatives { suite } | Case::Headers { suite } | Case::CrossSuite { suite, .. } | Case::Differential { suite, .. } => suite.clone(),
         };
         with_suite!(suite.as_str(), run_case, &c)
     }
@@ -124,6 +130,7 @@ fn run_case<C: Suite>(c: &Case) -> Outcome {
         Case::Negatives { .. } => negatives::<C>(),
         Case::Headers { .. } => headers::<C>(),
         Case::CrossSuite { other, .. } => cross::<C>(other),
+        Case::Differential { kind, full, .. } => differential::<C>(kind, *full),
     }
 }
 
@@ -731,5 +738,93 @@ fn cross<C: Suite>(other: &str) -> Outcome {
         }
     }
     o.class("cross");
+    o
+}
+
+
+fn differential<C: Suite>(kind: &str, full: bool) -> Outcome {
+    use serde_json::json;
+    let mut o = Outcome::new();
+    let tag = format!("C12/{}/{kind}", C::name());
+    let m = material::<C>(3, 2, IdKind::Seq, "diff").expect("material");
+    let items = wire_items::<C>(&m);
+    let item_name = if kind == "scalar" { "SigningShare" } else { "VerifyingKey" };
+    let Some(it) = items.iter().find(|i| i.name == item_name && i.path == WPath::Raw) else {
+        o.machinery_error("no decoder item");
+        return o;
+    };
+    let mut inputs: Vec<Vec<u8>> = vec![];
+    if kind == "scalar" {
+        let one_enc = sc_bytes::<C>(&one::<C>());
+        let little = one_enc[0] == 1;
+        let qm1 = sc_bytes::<C>(&neg::<C>(one::<C>()));
+        let q = add_one(&qm1, little);
+        inputs.extend([one_enc.clone(), qm1.clone(), q.clone(), add_one(&q, little), vec![0xff; one_enc.len()], vec![0; one_enc.len()]]);
+        for base in [&one_enc, &qm1, &sc_bytes::<C>(&sc_seeded::<C>("diff"))] {
+            for pos in 0..base.len() {
+                for v in 0..=255u8 {
+                    if v != base[pos] && (full || pos < 2 || pos + 3 > base.len() || v % 16 == 1) {
+                        let mut b = base.to_vec();
+                        b[pos] = v;
+                        inputs.push(b);
+                    }
+                }
+            }
+        }
+        for len in [0usize, 1, one_enc.len() - 1, one_enc.len() + 1] {
+            inputs.push(vec![1u8; len]);
+        }
+    } else {
+        let g = el_bytes::<C>(&gen_mul::<C>(one::<C>())).unwrap();
+        inputs.push(g.clone());
+        inputs.push(vec![0; g.len()]);
+        inputs.push(vec![0xff; g.len()]);
+        for (_, b) in suite_element_negatives::<C>() {
+            inputs.push(b);
+        }
+        let bases = [el_bytes::<C>(&gen_mul::<C>(sc_seeded_nz::<C>("diffel"))).unwrap(), g.clone()];
+        for (bi, base) in bases.iter().enumerate() {
+            for pos in 0..base.len() {
+                let vals: Vec<u8> = if full && bi == 0 { (0..=255u8).collect() } else { vec![0, 1, 2, 3, 0x7f, 0x80, 0xff, base[pos] ^ 1, base[pos] ^ 0x80] };
+                for v in vals {
+                    if v != base[pos] {
+                        let mut b = base.to_vec();
+                        b[pos] = v;
+                        inputs.push(b);
+                    }
+                }
+            }
+        }
+        inputs.push(g[..g.len() - 1].to_vec());
+        inputs.push([g.clone(), vec![0]].concat());
+    }
+    inputs.sort();
+    inputs.dedup();
+    let reqs: Vec<serde_json::Value> = inputs.iter().map(|b| json!({"type": "decode", "suite": C::NAME, "kind": kind, "bytes": hex::encode(b)})).collect();
+    match crate::pyref::ask_reference(&reqs) {
+        Err(e) => o.machinery_error(e),
+        Ok(ans) => {
+            for (b, a) in inputs.iter().zip(ans) {
+                if let Some(e) = a.get("error") {
+                    o.machinery_error(format!("reference crashed on {}: {e}", hex::encode(b)));
+                    continue;
+                }
+                let lib = (it.dec)(b).is_some();
+                let rf = a["accept"] == json!(true);
+                o.eval(true);
+                o.count("differential_decodes", 1);
+                if lib && rf {
+                    o.count("differential_both_accept", 1);
+                }
+                if lib != rf {
+                    o.fail(
+                        format!("{tag}/differs-from-reference/{}", if lib { "library-accepts" } else { "library-rejects" }),
+                        format!("{item_name}: {} : library accept={lib}, independent decoder accept={rf}", hex::encode(b)),
+                    );
+                }
+            }
+        }
+    }
+    o.class("differential");
     o
 }
